@@ -117,7 +117,21 @@ fn run(rng: &mut Rng, idx: u64, tier: Tier) -> CaseOut {
             _ => F::Wild("p".to_string()),
         }
     };
-    let f = match rng.below(6) {
+    let f = match rng.below(7) {
+        6 => {
+            // a one-variable sub-formula used at nesting depth 2 in one branch and at depth 1 in a sibling branch
+            // (a cached result has to be renamed across scopes; a leftover spare variable would show in the support)
+            let g = |v: &str, rng: &mut Rng| match rng.below(4) {
+                0 => un(Un::AX, var(v)),
+                1 => un(Un::EF, var(v)),
+                2 => bin(Bin::EU, atom(rng), var(v)),
+                _ => un(Un::EX, bin(Bin::And, var(v), atom(rng))),
+            };
+            let shape = rng.next();
+            let deep = hyb(*rng.pick(&[Hyb::Exists, Hyb::Bind, Hyb::Forall]), "x", None, hyb(Hyb::Exists, "y", None, bin(Bin::And, hyb(Hyb::Jump, "x", None, un(Un::EF, var("y"))), g("y", &mut Rng::new(shape)))));
+            let shallow = hyb(*rng.pick(&[Hyb::Exists, Hyb::Bind]), "z", None, bin(Bin::And, g("z", &mut Rng::new(shape)), atom(rng)));
+            if rng.coin() { bin(Bin::And, deep, shallow) } else { bin(Bin::Or, shallow, deep) }
+        }
         0 => atom(rng),
         1 => un(*rng.pick(&ALL_UN), atom(rng)),
         2 => bin(*rng.pick(&ALL_BIN), atom(rng), atom(rng)),
